@@ -319,6 +319,7 @@ class FuncIntervals:
         self.bytes_like: t.Set[str] = set()
         self.ret = BOTTOM
         self.ret_elems: t.Dict[int, IV] = {}
+        self.alias: t.Dict[str, str] = {}
         self._index_exprs()
         if not skeleton:
             self._solve()
@@ -479,7 +480,10 @@ class FuncIntervals:
             key = unparse(target)
             env[key] = iv if iv is not None else (self.eval(value, env) if value is not None else IV.top())
         elif isinstance(target, ast.Subscript):
-            pass
+            if isinstance(target.value, ast.Name):
+                for k in list(env):
+                    if k.startswith(target.value.id + "["):
+                        del env[k]
 
     def _transfer(self, node: Node, env: Env, label: t.Any) -> t.Optional[Env]:
         if node.kind == "cond":
@@ -507,7 +511,13 @@ class FuncIntervals:
                     self._assign(out, st.target, None, iv)
                 elif isinstance(it, ast.Call) and unparse(it.func) == "enumerate" and isinstance(st.target, ast.Tuple):
                     self._assign(out, st.target.elts[0], None, IV(0, None))
-                    self._assign(out, st.target.elts[1], None, self._elem_iv(it.args[0], env))
+                    ev = self._elem_iv(it.args[0], env)
+                    self._assign(out, st.target.elts[1], None, ev)
+                    if isinstance(it.args[0], ast.Name) and all(isinstance(x, ast.Name) for x in st.target.elts):
+                        # val is X[idx] until X is written: remember the alias so that guards on val refine X[idx]
+                        alias = f"{it.args[0].id}[{st.target.elts[0].id}]"  # type: ignore[attr-defined]
+                        self.alias[st.target.elts[1].id] = alias  # type: ignore[attr-defined]
+                        out[alias] = ev
                 else:
                     self._assign(out, st.target, None, self._elem_iv(it, env))
             return out
@@ -584,6 +594,8 @@ class FuncIntervals:
                 return unparse(e)
         if isinstance(e, ast.Call) and unparse(e.func) == "len" and len(e.args) == 1 and isinstance(e.args[0], (ast.Name, ast.Attribute)):
             return unparse(e)
+        if isinstance(e, ast.Subscript) and isinstance(e.value, ast.Name) and isinstance(e.slice, ast.Name):
+            return unparse(e)
         return None
 
     def _apply_cmp(self, env: Env, a: ast.expr, op: ast.cmpop, b: ast.expr) -> bool:
@@ -595,6 +607,8 @@ class FuncIntervals:
                 return False
             if k is not None:
                 env[k] = iv
+                if k in self.alias and self.alias[k] in env:
+                    env[self.alias[k]] = iv
             return True
 
         if isinstance(op, ast.Lt):
